@@ -27,6 +27,10 @@ Deviations that the theorems expose as hypotheses (each with a concrete counter-
   an accepted point respects the bounds up to `ε` (`defsol_complete_tol`), and the exact iff
   `defsol_equiv` holds when no integer lies within `ε` outside of a bound (`BoundsNotNearInt`, true
   of integral and half-integral bounds - `boundsNotNearInt_of_half`; needed: `defsol_tol_needed`).
+* (repaired in the code: ECOS_BB mixes up the bound rows of binary and integer variables unless every
+  binary column precedes every integer one; `eco_solver.solve` now passes a binary as an *integer*
+  variable with the bound rows of `[max(lb,0), min(ub,1)]` and no `bool_vars_idx`.  `ecos_equiv` is
+  still exact - integer ∧ `0 ≤ x ≤ 1` ⇔ binary; example `PIB` has the `'I'` column first.)
 * ECOS' exponential cone is read in the order `(s₀,s₁,s₂) ↦ s₂·exp(s₀/s₂) ≤ s₁`, the same order
   as rsome's `ExpConstr(e1,e2,e3)`/`xmat = [aux0,aux1,aux2]` (`ecos_exp_membership`; confirmed
   numerically against the real ECOS in `test_iface.py`). -/
@@ -215,26 +219,44 @@ end DefSol
 
 /-! ### ECOS -/
 
-/-- **`ecos_equiv`**: `G x + s = h`, `s ∈ ℝ₊^l × Q^{q₁} × … × K_exp^e`, `A x = b`, booleans and
-integers as listed — the data `eco_solver.solve` passes to `ecos.solve` — hold for exactly the
+/-- bounds + integrality as `eco_solver.solve` sets them (bound rows from the clipped bounds
+`clipBin`, `int_vars_idx` = the `'B'` and `'I'` columns): an integer within `[max(lb,0), min(ub,1)]`
+is a 0/1 value within `[lb, ub]` -/
+lemma cols_ecos_iff (vt : ℕ → Char) (L : LinProg K) (x : ℕ → K) :
+    ((∀ j < L.nc, LinProg.geLb (x j) ((clipBin L vt).lb j) ∧ LinProg.leUb (x j) ((clipBin L vt).ub j)) ∧
+      ∀ j < L.nc, (vt j == 'B' || vt j == 'I') = true → IsInt (x j)) ↔
+    ((∀ j < L.nc, LinProg.geLb (x j) (L.lb j) ∧ LinProg.leUb (x j) (L.ub j)) ∧ VtOk vt L.nc x) := by
+  constructor
+  · rintro ⟨h1, h2⟩
+    have := fun j hj => (col_ecos_iff (vt j) (x j) (L.lb j) (L.ub j)).mp ⟨h1 j hj, h2 j hj⟩
+    exact ⟨fun j hj => (this j hj).1, fun j hj => (this j hj).2⟩
+  · rintro ⟨h1, h2⟩
+    have := fun j hj => (col_ecos_iff (vt j) (x j) (L.lb j) (L.ub j)).mpr ⟨h1 j hj, h2 j hj⟩
+    exact ⟨fun j hj => (this j hj).1, fun j hj => (this j hj).2⟩
+
+/-- **`ecos_equiv`**: `G x + s = h`, `s ∈ ℝ₊^l × Q^{q₁} × … × K_exp^e`, `A x = b` and the integer
+variables as listed — the data `eco_solver.solve` passes to `ecos.solve` — hold for exactly the
 feasible points of the conic program (rows, bounds, second-order cones head first, exponential
 cones `E (x e₀) (x e₁) (x e₂)`) that are binary on `'B'` and integral on `'I'` columns.  `E` is
-ECOS' exponential cone read on the slack triple in ECOS' own order. -/
+ECOS' exponential cone read on the slack triple in ECOS' own order.  Since the repair of
+`eco_solver.solve` a binary is an ECOS *integer* variable whose bound rows are those of
+`[max(lb,0), min(ub,1)]` (no `bool_vars_idx`): integer ∧ `0 ≤ x ≤ 1` ⇔ binary, so the equivalence
+is still exact, whatever the order of the `'B'` and `'I'` columns and for every alphabet. -/
 theorem ecos_equiv (P : ConeProg K) (vt : ℕ → Char) (E : K → K → K → Prop) (x : ℕ → K)
     (hw : IdxOk P) :
     (ecos P vt).Feas E x ↔ (P.Feas E x ∧ VtOk vt P.lp.nc x) := by
   have hs := ecos_slack P vt x hw
   have hlen : (ecos P vt).dimL =
       ((ineqIdx P.lp).map (fun i => P.lp.b i - P.lp.row i x) ++
-       (zlbIdx P.lp).map (fun j => x j - (P.lp.lb j).getD 0) ++
-       (zubIdx P.lp).map (fun j => (P.lp.ub j).getD 0 - x j)).length := by
+       (zlbIdx (clipBin P.lp vt)).map (fun j => x j - ((clipBin P.lp vt).lb j).getD 0) ++
+       (zubIdx (clipBin P.lp vt)).map (fun j => ((clipBin P.lp vt).ub j).getD 0 - x j)).length := by
     simp [ecos, Nat.add_assoc]
   have htake := List.take_left' (l₂ := P.qmat.flatten.map x ++ P.xmat.flatten.map x) hlen.symm
   have hdrop := List.drop_left' (l₂ := P.qmat.flatten.map x ++ P.xmat.flatten.map x) hlen.symm
   have hlin : (∀ v ∈ ((ecos P vt).slack x).take (ecos P vt).dimL, 0 ≤ v) ↔
       ((∀ i ∈ ineqIdx P.lp, P.lp.row i x ≤ P.lp.b i) ∧
-        (∀ j < P.lp.nc, LinProg.geLb (x j) (P.lp.lb j)) ∧
-        ∀ j < P.lp.nc, LinProg.leUb (x j) (P.lp.ub j)) := by
+        (∀ j < (clipBin P.lp vt).nc, LinProg.geLb (x j) ((clipBin P.lp vt).lb j)) ∧
+        ∀ j < (clipBin P.lp vt).nc, LinProg.leUb (x j) ((clipBin P.lp vt).ub j)) := by
     rw [hs, htake, ← zlb_iff, ← zub_iff]
     simp only [List.mem_append, List.mem_map, or_imp, forall_and, forall_exists_index, and_imp,
       forall_apply_eq_imp_iff₂, sub_nonneg, and_assoc]
@@ -246,21 +268,23 @@ theorem ecos_equiv (P : ConeProg K) (vt : ℕ → Char) (E : K → K → K → P
     exact coneFeas_iff E x P.qmat P.xmat hw.xlen
   have heq : optRowsEq (ecos P vt).n (ecos P vt).A (ecos P vt).b x ↔
       ∀ i ∈ eqIdx P.lp, P.lp.row i x = P.lp.b i := optRowsEq_noeq P.lp x
-  have hvt : ((∀ j ∈ (ecos P vt).boolIdx, IsBin (x j)) ∧ ∀ j ∈ (ecos P vt).intIdx, IsInt (x j)) ↔
-      VtOk vt P.lp.nc x := by
-    simp only [ecos, List.mem_filter, List.mem_range, beq_iff_eq, and_imp, VtOk]
-    exact ⟨fun ⟨a, b⟩ j hj => ⟨a j hj, b j hj⟩, fun h => ⟨fun j hj => (h j hj).1, fun j hj => (h j hj).2⟩⟩
+  have hint : ((∀ j ∈ (ecos P vt).boolIdx, IsBin (x j)) ∧ ∀ j ∈ (ecos P vt).intIdx, IsInt (x j)) ↔
+      ∀ j < P.lp.nc, (vt j == 'B' || vt j == 'I') = true → IsInt (x j) := by
+    simp only [ecos, List.not_mem_nil, false_imp_iff, implies_true, true_and, List.mem_filter,
+      List.mem_range, and_imp]
+  have hcols := cols_ecos_iff vt P.lp x
   constructor
   · intro h
     obtain ⟨a1, a2, a3⟩ := hlin.mp h.lin
     obtain ⟨b1, b2⟩ := hcone.mp h.cone
     have c1 := heq.mp h.eq
-    exact ⟨⟨(linFeas_iff P.lp x).mpr ⟨⟨a1, c1⟩, fun j hj => ⟨a2 j hj, a3 j hj⟩⟩, b1, b2⟩,
-      hvt.mp ⟨h.bool, h.int⟩⟩
+    obtain ⟨d1, d2⟩ := hcols.mp ⟨fun j hj => ⟨a2 j hj, a3 j hj⟩, hint.mp ⟨h.bool, h.int⟩⟩
+    exact ⟨⟨(linFeas_iff P.lp x).mpr ⟨⟨a1, c1⟩, d1⟩, b1, b2⟩, d2⟩
   · rintro ⟨h, hv⟩
     obtain ⟨⟨a1, c1⟩, a23⟩ := (linFeas_iff P.lp x).mp h.lin
-    obtain ⟨v1, v2⟩ := hvt.mpr hv
-    exact ⟨hlin.mpr ⟨a1, fun j hj => (a23 j hj).1, fun j hj => (a23 j hj).2⟩,
+    obtain ⟨d1, d2⟩ := hcols.mpr ⟨a23, hv⟩
+    obtain ⟨v1, v2⟩ := hint.mpr d2
+    exact ⟨hlin.mpr ⟨a1, fun j hj => (d1 j hj).1, fun j hj => (d1 j hj).2⟩,
       hcone.mpr ⟨h.soc, h.exp⟩, heq.mpr c1, v1, v2⟩
 
 /-- the objective handed to ECOS is the program's cost vector -/
@@ -514,10 +538,13 @@ def P0 : ConeProg ℚ where
 
 def vt0 : ℕ → Char := fun j => "CBIC".toList.getD j 'C'
 
-example : ((ecos P0 vt0).dimL, (ecos P0 vt0).dimQ, (ecos P0 vt0).dimE) = (3, [2], 1) := by decide
-example : ((ecos P0 vt0).boolIdx, (ecos P0 vt0).intIdx, (ecos P0 vt0).mixed) = ([1], [2], true) := by
+/-- the binary column 1 (`x₁ ≤ 5`, no lower bound) gets both bound rows `0 ≤ x₁ ≤ 1` and is listed as an
+integer variable; no boolean variable is declared -/
+example : ((ecos P0 vt0).dimL, (ecos P0 vt0).dimQ, (ecos P0 vt0).dimE) = (4, [2], 1) := by decide
+example : ((ecos P0 vt0).boolIdx, (ecos P0 vt0).intIdx, (ecos P0 vt0).mixed) = ([], [1, 2], true) := by
   decide
-example : (ecos P0 vt0).G.length = 8 ∧ (ecos P0 vt0).h.length = 8 := by decide
+example : (ecos P0 vt0).G.length = 9 ∧ (ecos P0 vt0).h.length = 9 := by decide
+example : (ecos P0 vt0).h.take 4 = [3, -0, -0, 1] := by decide
 example : (ortools P0 vt0).solver = "SCIP" ∧ (ortools P0 vt0).rows.length = 2 := by decide
 example : (gurobi P0 vt0).qcs.map (fun c => (c.left, c.right)) = [([2], [1])] := by decide
 
@@ -525,6 +552,38 @@ example : (gurobi P0 vt0).qcs.map (fun c => (c.left, c.right)) = [([2], [1])] :=
 example (E : ℚ → ℚ → ℚ → Prop) (x : ℕ → ℚ) :
     (ecos P0 vt0).Feas E x ↔ (P0.Feas E x ∧ VtOk vt0 4 x) :=
   ecos_equiv P0 vt0 E x ⟨by decide, by decide, by decide⟩
+
+/-- the program on which ECOS_BB went wrong: `n = dvar('I'); y = dvar('B')`,
+`max 2n + y` s.t. `n + y ≤ 3`, `n ≥ 0` - an `'I'` column *before* a `'B'` column -/
+def PIB : ConeProg ℚ where
+  lp := { nr := 1, nc := 2, a := fun _ _ => 1, b := fun _ => 3, eq := fun _ => false
+          ub := fun _ => none, lb := fun j => if j = 0 then some 0 else none
+          c := fun j => if j = 0 then -2 else -1 }
+  st := fun _ _ => true
+  qmat := []
+  xmat := []
+
+def vtIB : ℕ → Char := fun j => "IB".toList.getD j 'C'
+
+/-- both columns are handed over as integer variables (none as boolean); the binary `y` carries the
+bound rows `-y ≤ 0`, `y ≤ 1`: `h = [3 | -0, -0 | 1]`, `dims['l'] = 4` -/
+example : ((ecos PIB vtIB).boolIdx, (ecos PIB vtIB).intIdx, (ecos PIB vtIB).mixed) = ([], [0, 1], true) := by
+  decide
+example : ((ecos PIB vtIB).dimL, (ecos PIB vtIB).h) = (4, [3, -0, -0, 1]) := by decide
+example : (ecos PIB vtIB).G.map (fun g => (g 0, g 1)) = [(1, 1), (-1, 0), (0, -1), (0, 1)] := by decide
+
+/-- `ecos_equiv` with the `'I'` column before the `'B'` column -/
+example (E : ℚ → ℚ → ℚ → Prop) (x : ℕ → ℚ) :
+    (ecos PIB vtIB).Feas E x ↔ (PIB.Feas E x ∧ VtOk vtIB 2 x) :=
+  ecos_equiv PIB vtIB E x ⟨by decide, by decide, by decide⟩
+
+/-- the point ECOS_BB used to return (`n = 1`, `y = 2`: value 4, the optimum is 6 at `(3,0)`/`(2,1)`)
+does not satisfy the data handed over now -/
+example (E : ℚ → ℚ → ℚ → Prop) : ¬ (ecos PIB vtIB).Feas E (fun j => if j = 0 then 1 else 2) := by
+  rw [ecos_equiv PIB vtIB E _ ⟨by decide, by decide, by decide⟩]
+  rintro ⟨_, hv⟩
+  have := (hv 1 (by decide)).1 (by decide)
+  rcases this with h | h <;> norm_num at h
 
 /-- a one-column LP `x₀ ≤ 1/2` with the binary `x₀` and user bounds `[-3, 7]` -/
 def P1 : ConeProg ℚ where
